@@ -330,4 +330,17 @@ def obligations(tier, sc):
                       out="traces interrupted before the end (emu.finished == 0) are not constrained; more than two threads",
                       oracle="finished trace: finish fails iff linter mode and some thread's subsystem/function stack is non-empty; other channels never matter",
                       assumptions=ENV_ASSUME)))
+    # ---- C08-B: the task-body region of the task-based models.  `VTx/6Tx` opens and `VTe/6Te` closes
+    # the "Task body" subsystem region whatever the nesting context (parent running, paused, or none).  The
+    # obligations are the nOS-V / Nanos6 model-layer obligations of C07 (real <model>/event.c over real
+    # task.c + body.c; oracle: ST_TASK_BODY pushed exactly on execute, popped exactly on end, untouched by
+    # pause/resume) re-run under this property: a seeded change that fed the EXPANDED transition ('X'/'E')
+    # to update_task_ss_channel was invisible to the table obligations above (task_* are recorders there).
+    from checks import C07 as _c07
+    for model in ("nosv", "nanos6"):
+        for ob in _c07.model_obligations(model, tier):
+            if ob.info_only:
+                continue
+            ob.name = "B_task_body_region_" + ob.name
+            obs.append(ob)
     return obs
